@@ -9,6 +9,9 @@ import Proofs.C01_Object
 import Proofs.C01_Source
 import Proofs.C01_Dispatch
 import Proofs.C01_Scale
+import Proofs.C01_Trig
+import Mathlib.Analysis.SpecialFunctions.Trigonometric.Inverse
+import Mathlib.Analysis.Real.Sqrt
 import Mathlib.Tactic.LinearCombination
 import Mathlib.Tactic.NormNum
 
@@ -630,5 +633,525 @@ example : ∃ (s : ℚ) (b : Box ℚ) (p : V3 ℚ), 0 < s ∧ s ≠ 1 ∧ 0 < b.
     inside b Lams.ones p true = true ∧ inside b Lams.ones p false = false :=
   ⟨1024, ⟨⟨⟨2, 0, 0⟩, ⟨1/2, 3, 0⟩, ⟨-1, 1/4, 5⟩⟩, ⟨1, -2, 3⟩⟩, ⟨1, -2, 3⟩, by decide +kernel, by decide +kernel,
     by decide +kernel, by decide +kernel, by decide +kernel⟩
+
+variable {T : Trig K}
+
+/-! ### every ordered pair of parameter sets: define through X, read through Y, rebuild through Y -/
+
+/-- the rows of a non-degenerate cell are pairwise non-parallel. -/
+theorem cross_pos_of_det (m : M3 K) (h : m.det ≠ 0) :
+    0 < V3.normSq (V3.cross m.r1 m.r2) ∧ 0 < V3.normSq (V3.cross m.r0 m.r2) ∧ 0 < V3.normSq (V3.cross m.r0 m.r1) := by
+  have nz : ∀ w : V3 K, V3.normSq w = 0 → w.x = 0 ∧ w.y = 0 ∧ w.z = 0 := by
+    intro w hw
+    simp only [V3.normSq, V3.dot] at hw
+    have hx := mul_self_nonneg w.x; have hy := mul_self_nonneg w.y; have hz := mul_self_nonneg w.z
+    refine ⟨?_, ?_, ?_⟩ <;> apply mul_self_eq_zero.mp <;> linarith
+  have d1 : m.det = V3.dot m.r0 (V3.cross m.r1 m.r2) := by simp only [M3.det]
+  have d2 : m.det = -V3.dot m.r1 (V3.cross m.r0 m.r2) := by simp only [M3.det, V3.dot, V3.cross]; ring
+  have d3 : m.det = V3.dot m.r2 (V3.cross m.r0 m.r1) := by simp only [M3.det, V3.dot, V3.cross]; ring
+  refine ⟨?_, ?_, ?_⟩
+  · rcases (normSq_nonneg (V3.cross m.r1 m.r2)).lt_or_eq with hh | hh
+    · exact hh
+    · obtain ⟨a, b, c⟩ := nz _ hh.symm
+      exact absurd (by rw [d1]; simp only [V3.dot, a, b, c]; ring) h
+  · rcases (normSq_nonneg (V3.cross m.r0 m.r2)).lt_or_eq with hh | hh
+    · exact hh
+    · obtain ⟨a, b, c⟩ := nz _ hh.symm
+      exact absurd (by rw [d2]; simp only [V3.dot, a, b, c]; ring) h
+  · rcases (normSq_nonneg (V3.cross m.r0 m.r1)).lt_or_eq with hh | hh
+    · exact hh
+    · obtain ⟨a, b, c⟩ := nz _ hh.symm
+      exact absurd (by rw [d3]; simp only [V3.dot, a, b, c]; ring) h
+
+theorem det_pos_of_normal (b : Box K) (h : b.isLammpsNorm = true) : 0 < b.vects.det := by
+  obtain ⟨e1, e2, e3, hx, hy, hz⟩ := (isLammpsNorm_iff b).mp h
+  rw [M3.det_def', e1, e2, e3]
+  have := mul_pos (mul_pos hx hy) hz
+  linarith
+
+/-- the two radicands of `set_abc`, fed with the lengths and cosines of a LAMMPS-oriented cell, are the squares of its `ly`, `lz`. -/
+theorem abc_roots_of_normal (bx : Box K) (h : bx.isLammpsNorm = true) (a b c ca cb cg : K)
+    (ha : 0 < a) (ha2 : a * a = a2 bx) (hb2 : b * b = b2 bx) (hc2 : c * c = c2 bx)
+    (hca : b * c * ca = dotBC bx) (hcb : a * c * cb = dotAC bx) (hcg : a * b * cg = dotAB bx) :
+    abcLySq b cg = bx.vects.r1.y * bx.vects.r1.y ∧
+    abcLzSq b c ca cb cg bx.vects.r1.y = bx.vects.r2.z * bx.vects.r2.z := by
+  obtain ⟨hy, hz, hbz, hx, hly, hlz⟩ := (isLammpsNorm_iff bx).mp h
+  obtain ⟨⟨⟨lx, ay, az⟩, ⟨xy, ly, bz⟩, ⟨xz, yz, lz⟩⟩, o⟩ := bx
+  simp only at hy hz hbz hx hly hlz
+  subst hy hz hbz
+  simp only [a2, b2, c2, dotAB, dotAC, dotBC, V3.normSq, V3.dot, mul_zero, add_zero, zero_mul] at *
+  have hal : a = lx := by nlinarith
+  subst hal
+  have hane : a ≠ 0 := ne_of_gt ha
+  have hlne : ly ≠ 0 := ne_of_gt hly
+  have e1 : b * cg = xy := mul_left_cancel₀ hane (by linear_combination hcg)
+  have e2 : c * cb = xz := mul_left_cancel₀ hane (by linear_combination hcb)
+  have e3 : (b * c * ca - xy * xz) / ly = yz := by rw [hca]; field_simp; ring
+  constructor
+  · simp only [abcLySq, e1]; linear_combination hb2
+  · simp only [abcLzSq, e1, e2, e3]; linear_combination hc2
+
+/-- reading a clean LAMMPS-oriented cell through `a b c alpha beta gamma` (+ origin) and handing that to `set_abc`. -/
+theorem read_abc_rebuild_normal (hT : T.Spec) (thr : K) (bx : Box K) (hcl : IsClean thr bx) (h : bx.isLammpsNorm = true) :
+    ∃ q, readAs? T .abc bx = some q ∧ q.family = .abc ∧ define? T thr q = some bx := by
+  refine ⟨_, rfl, rfl, ?_⟩
+  have hd := det_pos_of_normal bx h
+  obtain ⟨x12, x02, x01⟩ := cross_pos_of_det bx.vects (ne_of_gt hd)
+  obtain ⟨al1, al2, al3, al4⟩ := angleDeg_spec hT _ _ x12
+  obtain ⟨be1, be2, be3, be4⟩ := angleDeg_spec hT _ _ x02
+  obtain ⟨ga1, ga2, ga3, ga4⟩ := angleDeg_spec hT _ _ x01
+  obtain ⟨n0, _⟩ := cross_pos_parts _ _ x01
+  obtain ⟨n1, n2⟩ := cross_pos_parts _ _ x12
+  have pa := lenOf_pos hT _ n0
+  have pb := lenOf_pos hT _ n1
+  have pc := lenOf_pos hT _ n2
+  have ok : anglesOk (angleDeg T bx.vects.r1 bx.vects.r2) (angleDeg T bx.vects.r0 bx.vects.r2)
+      (angleDeg T bx.vects.r0 bx.vects.r1) = true := by
+    simp only [anglesOk, Bool.and_eq_true, decide_eq_true_eq]
+    exact ⟨⟨⟨⟨⟨al1, al2⟩, be1⟩, be2⟩, ga1⟩, ga2⟩
+  have hca : lenOf T bx.vects.r1 * lenOf T bx.vects.r2 * cosDeg T (angleDeg T bx.vects.r1 bx.vects.r2) = dotBC bx := by
+    rw [mul_comm]; exact al4
+  have hcb : lenOf T bx.vects.r0 * lenOf T bx.vects.r2 * cosDeg T (angleDeg T bx.vects.r0 bx.vects.r2) = dotAC bx := by
+    rw [mul_comm]; exact be4
+  have hcg : lenOf T bx.vects.r0 * lenOf T bx.vects.r1 * cosDeg T (angleDeg T bx.vects.r0 bx.vects.r1) = dotAB bx := by
+    rw [mul_comm]; exact ga4
+  obtain ⟨r1, r2⟩ := abc_roots_of_normal bx h _ _ _ _ _ _ pa (lenOf_sq hT _) (lenOf_sq hT _) (lenOf_sq hT _) hca hcb hcg
+  obtain ⟨_, _, _, _, hly, hlz⟩ := (isLammpsNorm_iff bx).mp h
+  have s1 : T.sqrt (abcLySq (lenOf T bx.vects.r1) (cosDeg T (angleDeg T bx.vects.r0 bx.vects.r1))) = bx.vects.r1.y := by
+    rw [r1]; exact hT.sqrt_mul_self _ hly.le
+  have s2 : T.sqrt (abcLzSq (lenOf T bx.vects.r1) (lenOf T bx.vects.r2) (cosDeg T (angleDeg T bx.vects.r1 bx.vects.r2))
+      (cosDeg T (angleDeg T bx.vects.r0 bx.vects.r2)) (cosDeg T (angleDeg T bx.vects.r0 bx.vects.r1)) bx.vects.r1.y)
+      = bx.vects.r2.z := by
+    rw [r2]; exact hT.sqrt_mul_self _ hlz.le
+  have key := abc_rebuild_normal_clean thr bx hcl h _ _ _ _ _ _ pa pb pc (lenOf_sq hT _) (lenOf_sq hT _) (lenOf_sq hT _)
+    hca hcb hcg
+  simp only [define?, setAbcDeg?, ok, if_true, abcOfDeg, s1, s2]
+  exact key
+
+/-- whatever a cell-defining call stores is clean (the next setter's clean-up does nothing to it). -/
+theorem defined_isClean (thr : K) (hthr : 0 ≤ thr) (x : Params K) (b : Box K) (h : define? T thr x = some b) :
+    IsClean thr b := by
+  cases x with
+  | vectors a b' c o =>
+    simp only [define?, Option.some.injEq] at h
+    subst h; exact clean_idem thr hthr _
+  | abc a b' c al be ga o =>
+    simp only [define?, setAbcDeg?] at h
+    split at h
+    · obtain ⟨b0, _, rfl⟩ := Option.map_eq_some_iff.mp h
+      exact clean_idem thr hthr _
+    · cases h
+  | lengths p o =>
+    simp only [define?, setLengths?] at h
+    obtain ⟨b0, _, rfl⟩ := Option.map_eq_some_iff.mp h
+    exact clean_idem thr hthr _
+  | hilos p =>
+    simp only [define?, setHiLos?] at h
+    obtain ⟨b0, _, rfl⟩ := Option.map_eq_some_iff.mp h
+    exact clean_idem thr hthr _
+
+/-- `define?` is `defineRaw?` followed by the clean-up of the `vects` setter. -/
+theorem define_eq_clean_raw (thr : K) (x : Params K) : define? T thr x = (defineRaw? T x).map (cleanBox thr) := by
+  cases x with
+  | vectors a b' c o => rfl
+  | abc a b' c al be ga o => simp only [define?, defineRaw?, setAbcDeg?]; split <;> rfl
+  | lengths p o => rfl
+  | hilos p => rfl
+
+/-- before the clean-up, the three LAMMPS-style parameter sets produce LAMMPS-oriented cells. -/
+theorem raw_normal (x : Params K) (hf : x.family ≠ .vectors) (b0 : Box K) (h : defineRaw? T x = some b0) :
+    b0.isLammpsNorm = true := by
+  cases x with
+  | vectors a b' c o => exact absurd rfl hf
+  | abc a b' c al be ga o =>
+    simp only [defineRaw?] at h
+    split at h
+    · exact (lengths_readback _ _ _ h).1
+    · cases h
+  | lengths p o => exact (lengths_readback _ _ _ h).1
+  | hilos p => exact (hilos_readback _ _ h).1
+
+/-- the clean-up keeps a LAMMPS-oriented cell LAMMPS-oriented unless it flattens it (zeroes a diagonal entry). -/
+theorem clean_normal_of_det (thr : K) (b0 : Box K) (h : b0.isLammpsNorm = true) (hd : (cleanBox thr b0).vects.det ≠ 0) :
+    (cleanBox thr b0).isLammpsNorm = true := by
+  obtain ⟨e1, e2, e3, hx, hy, hz⟩ := (isLammpsNorm_iff b0).mp h
+  have z : ∀ M : K, cleanEntry thr M 0 = 0 := fun M => by simp only [cleanEntry]; split <;> rfl
+  have c1 : (cleanBox thr b0).vects.r0.y = 0 := by simp only [cleanBox, cleanVects, cleanV, e1, z]
+  have c2 : (cleanBox thr b0).vects.r0.z = 0 := by simp only [cleanBox, cleanVects, cleanV, e2, z]
+  have c3 : (cleanBox thr b0).vects.r1.z = 0 := by simp only [cleanBox, cleanVects, cleanV, e3, z]
+  have hdet : (cleanBox thr b0).vects.det =
+      (cleanBox thr b0).vects.r0.x * (cleanBox thr b0).vects.r1.y * (cleanBox thr b0).vects.r2.z := by
+    rw [M3.det_def', c1, c2, c3]; ring
+  rw [hdet] at hd
+  have n1 : (cleanBox thr b0).vects.r0.x ≠ 0 := fun hh => hd (by rw [hh]; ring)
+  have n2 : (cleanBox thr b0).vects.r1.y ≠ 0 := fun hh => hd (by rw [hh]; ring)
+  have n3 : (cleanBox thr b0).vects.r2.z ≠ 0 := fun hh => hd (by rw [hh]; ring)
+  have keep : ∀ M x : K, cleanEntry thr M x ≠ 0 → cleanEntry thr M x = x := by
+    intro M x hne; simp only [cleanEntry] at hne ⊢; split
+    · rename_i hh; simp only [hh, if_true, ne_eq, not_true_eq_false] at hne
+    · rfl
+  rw [isLammpsNorm_iff]
+  refine ⟨c1, c2, c3, ?_, ?_, ?_⟩
+  · have : (cleanBox thr b0).vects.r0.x = b0.vects.r0.x := keep _ _ n1
+    rw [this]; exact hx
+  · have : (cleanBox thr b0).vects.r1.y = b0.vects.r1.y := keep _ _ n2
+    rw [this]; exact hy
+  · have : (cleanBox thr b0).vects.r2.z = b0.vects.r2.z := keep _ _ n3
+    rw [this]; exact hz
+
+/-- **a cell defined through lengths/angles, LAMMPS lengths/tilts or LAMMPS bounds/tilts is LAMMPS-oriented** whenever it is
+    non-degenerate (the clean-up has not flattened it). -/
+theorem defined_normal_of_det (thr : K) (x : Params K) (hf : x.family ≠ .vectors) (b : Box K)
+    (h : define? T thr x = some b) (hd : b.vects.det ≠ 0) : b.isLammpsNorm = true := by
+  rw [define_eq_clean_raw] at h
+  obtain ⟨b0, h0, rfl⟩ := Option.map_eq_some_iff.mp h
+  exact clean_normal_of_det thr b0 (raw_normal x hf b0 h0) hd
+
+/-- **read through Y, rebuild through Y**, for each of the four parameter sets Y, on a clean LAMMPS-oriented cell: the getters of
+    Y hand out values, and giving exactly those back to Y's setter stores the same vectors and the same origin. -/
+theorem read_rebuild_same (hT : T.Spec) (thr : K) (Y : Family) (b : Box K) (hc : IsClean thr b) (hn : b.isLammpsNorm = true) :
+    ∃ q, readAs? T Y b = some q ∧ q.family = Y ∧ define? T thr q = some b := by
+  cases Y with
+  | vectors =>
+    refine ⟨_, rfl, rfl, ?_⟩
+    simp only [define?, setVects, Option.some.injEq]
+    have : cleanVects thr b.vects = b.vects := hc
+    rw [this]
+  | abc => exact read_abc_rebuild_normal hT thr b hc hn
+  | lengths =>
+    obtain ⟨p, h1, h2⟩ := lengths_roundtrip_clean thr b hc hn
+    exact ⟨.lengths p b.origin, by simp only [readAs?, h1, Option.map_some], rfl, h2⟩
+  | hilos =>
+    obtain ⟨p, h1, h2⟩ := hilos_roundtrip_clean thr b hc hn
+    exact ⟨.hilos p, by simp only [readAs?, h1, Option.map_some], rfl, h2⟩
+
+/-- **every ordered pair (X, Y) of the four parameter sets**: a cell defined through X (accepted, non-degenerate; for X = three
+    vectors: given in LAMMPS-compatible orientation) can be read back through Y, and rebuilding from those values through Y
+    returns the same vectors and origin. -/
+theorem rebuild_any_pair (hT : T.Spec) (thr : K) (hthr : 0 ≤ thr) (x : Params K) (Y : Family) (b : Box K)
+    (hx : define? T thr x = some b) (hd : b.vects.det ≠ 0) (hX : x.family ≠ .vectors ∨ b.isLammpsNorm = true) :
+    ∃ q, readAs? T Y b = some q ∧ q.family = Y ∧ define? T thr q = some b := by
+  have hn : b.isLammpsNorm = true := by
+    rcases hX with h | h
+    · exact defined_normal_of_det thr x h b hx hd
+    · exact h
+  exact read_rebuild_same hT thr Y b (defined_isClean thr hthr x b hx) hn
+
+/-- … and a second pass changes nothing: the values read through Y from the rebuilt cell are the values read before. -/
+theorem rebuild_any_pair_fixpoint (hT : T.Spec) (thr : K) (hthr : 0 ≤ thr) (x : Params K) (Y Z : Family) (b : Box K)
+    (hx : define? T thr x = some b) (hd : b.vects.det ≠ 0) (hX : x.family ≠ .vectors ∨ b.isLammpsNorm = true) :
+    ∃ q, readAs? T Y b = some q ∧ define? T thr q = some b ∧
+      ∃ q', readAs? T Z b = some q' ∧ define? T thr q' = some b := by
+  obtain ⟨q, h1, _, h2⟩ := rebuild_any_pair hT thr hthr x Y b hx hd hX
+  obtain ⟨q', h3, _, h4⟩ := rebuild_any_pair hT thr hthr q Z b h2 hd
+    (Or.inr (by rcases hX with h | h
+                · exact defined_normal_of_det thr x h b hx hd
+                · exact h))
+  exact ⟨q, h1, h2, q', h3, h4⟩
+
+/-! ### lengths and angles in degrees: what `set_abc` is given is what the getters report -/
+
+theorem ofLengthsP?_some_pos (p : Lengths K) (o : V3 K) (b : Box K) (h : ofLengthsP? p o = some b) :
+    0 < p.lx ∧ 0 < p.ly ∧ 0 < p.lz := by
+  simp only [ofLengthsP?, Box.ofLengths?] at h
+  split at h
+  · rename_i hh; exact hh
+  · cases h
+
+/-- **"the reported lengths and angles are those of the vectors" at the level of the API**: a cell accepted by
+    `set_abc(a, b, c, alpha, beta, gamma, origin)` (positive lengths) reports, before the clean-up, exactly `a b c`, the three
+    angles in degrees it was given, and the origin. -/
+theorem abc_readback_degrees (hT : T.Spec) (a b c al be ga : K) (o : V3 K) (bx : Box K) (hb : 0 < b) (hc : 0 < c)
+    (h : defineRaw? T (.abc a b c al be ga o) = some bx) :
+    readAs? T .abc bx = some (.abc a b c al be ga o) := by
+  simp only [defineRaw?] at h
+  split at h
+  case isFalse => cases h
+  rename_i hok
+  simp only [anglesOk, Bool.and_eq_true, decide_eq_true_eq] at hok
+  obtain ⟨⟨⟨⟨⟨al1, al2⟩, be1⟩, be2⟩, ga1⟩, ga2⟩ := hok
+  obtain ⟨ly, hly⟩ : ∃ ly, ly = T.sqrt (abcLySq b (cosDeg T ga)) := ⟨_, rfl⟩
+  obtain ⟨lz, hlz⟩ : ∃ lz, lz = T.sqrt (abcLzSq b c (cosDeg T al) (cosDeg T be) (cosDeg T ga) ly) := ⟨_, rfl⟩
+  have hform : abcOfDeg T a b c al be ga = abcLengths a b c (cosDeg T al) (cosDeg T be) (cosDeg T ga) ly lz := by
+    simp only [abcOfDeg, hly, hlz]
+  rw [hform] at h
+  have hpos : 0 < a ∧ 0 < ly ∧ 0 < lz := ofLengthsP?_some_pos _ _ _ h
+  obtain ⟨ha, pl, pz⟩ := hpos
+  have hly2 : ly * ly = abcLySq b (cosDeg T ga) := by
+    rw [hly]; exact hT.sqrt_sq _ (hT.pos_of_sqrt_pos _ (hly ▸ pl)).le
+  have hlz2 : lz * lz = abcLzSq b c (cosDeg T al) (cosDeg T be) (cosDeg T ga) ly := by
+    rw [hlz]; exact hT.sqrt_sq _ (hT.pos_of_sqrt_pos _ (hlz ▸ pz)).le
+  obtain ⟨bx', e0, _, eo, g1, g2, g3, g4, g5, g6⟩ := abc_gram a b c _ _ _ ly lz o ha pl hly2 pz hlz2
+  have : bx' = bx := by
+    have : some bx' = some bx := by rw [← e0, ← h]; rfl
+    exact Option.some.inj this
+  subst this
+  have la : lenOf T bx'.vects.r0 = a := by
+    show T.sqrt (a2 bx') = a
+    rw [g1]; exact hT.sqrt_mul_self a ha.le
+  have lb : lenOf T bx'.vects.r1 = b := by
+    show T.sqrt (b2 bx') = b
+    rw [g2]; exact hT.sqrt_mul_self b hb.le
+  have lc : lenOf T bx'.vects.r2 = c := by
+    show T.sqrt (c2 bx') = c
+    rw [g3]; exact hT.sqrt_mul_self c hc.le
+  have hpi := hT.pi_pos
+  have back : ∀ (u v : V3 K) (n1 n2 ang : K), 0 < n1 → 0 < n2 → lenOf T u = n1 → lenOf T v = n2 →
+      V3.dot u v = n1 * n2 * cosDeg T ang → 0 < ang → ang < 180 → angleDeg T u v = ang := by
+    intro u v n1 n2 ang p1 p2 e1 e2 hdot a1 a2'
+    have hcs : angleCos u v n1 n2 = cosDeg T ang := by
+      have := angleCos_spec u v n1 n2 p1 p2
+      rw [hdot] at this
+      have hne : n1 * n2 ≠ 0 := ne_of_gt (mul_pos p1 p2)
+      exact mul_right_cancel₀ hne (by linear_combination this)
+    obtain ⟨r1, r2⟩ := hT.cos_range (ang * T.pi / 180)
+    simp only [angleDeg, e1, e2, hcs]
+    rw [clampCos_id _ (by simpa [cosDeg] using r1) (by simpa [cosDeg] using r2)]
+    simp only [cosDeg]
+    rw [hT.acos_cos _ (by positivity) (by rw [div_le_iff₀ (by norm_num : (0:K) < 180)]; nlinarith)]
+    field_simp
+  have eal := back bx'.vects.r1 bx'.vects.r2 b c al hb hc lb lc (by show dotBC bx' = _; rw [g6]) al1 al2
+  have ebe := back bx'.vects.r0 bx'.vects.r2 a c be ha hc la lc (by show dotAC bx' = _; rw [g5]) be1 be2
+  have ega := back bx'.vects.r0 bx'.vects.r1 a b ga ha hb la lb (by show dotAB bx' = _; rw [g4]) ga1 ga2
+  simp only [readAs?, la, lb, lc, eal, ebe, ega, eo]
+
+/-- determinant of the Gram matrix in lengths² and dot products. -/
+theorem gram_det_dots (bx : Box K) :
+    bx.vects.det * bx.vects.det = a2 bx * b2 bx * c2 bx + 2 * (dotBC bx * dotAC bx * dotAB bx)
+      - a2 bx * (dotBC bx * dotBC bx) - b2 bx * (dotAC bx * dotAC bx) - c2 bx * (dotAB bx * dotAB bx) := by
+  simp only [M3.det, a2, b2, c2, dotBC, dotAC, dotAB, V3.normSq, V3.dot, V3.cross]; ring
+
+/-- both radicands of `set_abc` are positive when it is fed with the lengths and cosines of a non-degenerate cell
+    (`a² · ly² · (second radicand) = det²`). -/
+theorem abc_radicands_pos (bx : Box K) (hdet : 0 < bx.vects.det) (a b c ca cb cg : K) (pa : 0 < a) (pb : 0 < b)
+    (ha2 : a * a = a2 bx) (hb2 : b * b = b2 bx) (hc2 : c * c = c2 bx)
+    (hca : b * c * ca = dotBC bx) (hcb : a * c * cb = dotAC bx) (hcg : a * b * cg = dotAB bx)
+    (cgs : -1 < cg ∧ cg < 1) :
+    0 < abcLySq b cg ∧ ∀ ly, 0 < ly → ly * ly = abcLySq b cg → 0 < abcLzSq b c ca cb cg ly := by
+  have r1pos : 0 < abcLySq b cg := by
+    simp only [abcLySq]
+    have e : b * b - b * cg * (b * cg) = (b * b) * ((1 - cg) * (1 + cg)) := by ring
+    rw [e]
+    exact mul_pos (mul_pos pb pb) (mul_pos (by linarith [cgs.2]) (by linarith [cgs.1]))
+  refine ⟨r1pos, ?_⟩
+  intro ly ply hly2
+  have hlne : ly ≠ 0 := ne_of_gt ply
+  have tm : abcLzSq b c ca cb cg ly * (ly * ly) =
+      (c * c - (c * cb) * (c * cb)) * (ly * ly) - (b * c * ca - b * cg * (c * cb)) * (b * c * ca - b * cg * (c * cb)) := by
+    simp only [abcLzSq]; field_simp
+  have key : (a * a) * (abcLzSq b c ca cb cg ly * (ly * ly)) = bx.vects.det * bx.vects.det := by
+    rw [gram_det_dots, ← ha2, ← hb2, ← hc2, ← hca, ← hcb, ← hcg, tm, hly2]
+    simp only [abcLySq]; ring
+  have h1 : 0 < bx.vects.det * bx.vects.det := mul_pos hdet hdet
+  have h2 : 0 < (a * a) * (ly * ly) := mul_pos (mul_pos pa pa) (mul_pos ply ply)
+  by_contra hneg
+  have h3 : abcLzSq b c ca cb cg ly * ((a * a) * (ly * ly)) ≤ 0 :=
+    mul_nonpos_of_nonpos_of_nonneg (not_lt.mp hneg) h2.le
+  have h4 : (a * a) * (abcLzSq b c ca cb cg ly * (ly * ly)) = abcLzSq b c ca cb cg ly * ((a * a) * (ly * ly)) := by ring
+  rw [h4] at key
+  rw [key] at h3
+  exact absurd h1 (not_lt.mpr h3)
+
+/-- **a cell NOT in LAMMPS-compatible orientation** (right-handed, clean): three vectors rebuild it exactly; the LAMMPS getters
+    refuse; lengths and angles in degrees rebuild the same cell up to a proper rotation, in LAMMPS orientation, same origin
+    (`b'` = what `set_abc` hands to the `vects` setter; the stored cell is its clean-up). -/
+theorem rebuild_turned_cell (hT : T.Spec) (thr : K) (bx : Box K) (hcl : IsClean thr bx) (hdet : 0 < bx.vects.det)
+    (hn : bx.isLammpsNorm = false) :
+    (∃ q, readAs? T .vectors bx = some q ∧ define? T thr q = some bx) ∧
+    readAs? T .lengths bx = none ∧ readAs? T .hilos bx = none ∧
+    ∃ q b', readAs? T .abc bx = some q ∧ defineRaw? T q = some b' ∧ define? T thr q = some (cleanBox thr b') ∧
+      b'.isLammpsNorm = true ∧ b'.origin = bx.origin ∧
+      ∃ r : M3 K, bx.vects.mul r = b'.vects ∧ r.mul r.transpose = M3.one ∧ r.det = 1 := by
+  refine ⟨⟨_, rfl, ?_⟩, by simp only [readAs?, lengths?, hn]; rfl, by simp only [readAs?, hilos?, hn]; rfl, ?_⟩
+  · simp only [define?, setVects, Option.some.injEq]
+    have : cleanVects thr bx.vects = bx.vects := hcl
+    rw [this]
+  obtain ⟨x12, x02, x01⟩ := cross_pos_of_det bx.vects (ne_of_gt hdet)
+  obtain ⟨al1, al2, al3, al4⟩ := angleDeg_spec hT _ _ x12
+  obtain ⟨be1, be2, be3, be4⟩ := angleDeg_spec hT _ _ x02
+  obtain ⟨ga1, ga2, ga3, ga4⟩ := angleDeg_spec hT _ _ x01
+  obtain ⟨n0, _⟩ := cross_pos_parts _ _ x01
+  obtain ⟨n1, n2⟩ := cross_pos_parts _ _ x12
+  obtain ⟨a, hadef⟩ : ∃ a, a = lenOf T bx.vects.r0 := ⟨_, rfl⟩
+  obtain ⟨b, hbdef⟩ : ∃ b, b = lenOf T bx.vects.r1 := ⟨_, rfl⟩
+  obtain ⟨c, hcdef⟩ : ∃ c, c = lenOf T bx.vects.r2 := ⟨_, rfl⟩
+  obtain ⟨ca, hcadef⟩ : ∃ ca, ca = cosDeg T (angleDeg T bx.vects.r1 bx.vects.r2) := ⟨_, rfl⟩
+  obtain ⟨cb, hcbdef⟩ : ∃ cb, cb = cosDeg T (angleDeg T bx.vects.r0 bx.vects.r2) := ⟨_, rfl⟩
+  obtain ⟨cg, hcgdef⟩ : ∃ cg, cg = cosDeg T (angleDeg T bx.vects.r0 bx.vects.r1) := ⟨_, rfl⟩
+  have pa : 0 < a := hadef ▸ lenOf_pos hT _ n0
+  have pb : 0 < b := hbdef ▸ lenOf_pos hT _ n1
+  have pc : 0 < c := hcdef ▸ lenOf_pos hT _ n2
+  have ha2 : a * a = a2 bx := hadef ▸ lenOf_sq hT _
+  have hb2 : b * b = b2 bx := hbdef ▸ lenOf_sq hT _
+  have hc2 : c * c = c2 bx := hcdef ▸ lenOf_sq hT _
+  have hca : b * c * ca = dotBC bx := by rw [hbdef, hcdef, hcadef, mul_comm]; exact al4
+  have hcb : a * c * cb = dotAC bx := by rw [hadef, hcdef, hcbdef, mul_comm]; exact be4
+  have hcg : a * b * cg = dotAB bx := by rw [hadef, hbdef, hcgdef, mul_comm]; exact ga4
+  have ok : anglesOk (angleDeg T bx.vects.r1 bx.vects.r2) (angleDeg T bx.vects.r0 bx.vects.r2)
+      (angleDeg T bx.vects.r0 bx.vects.r1) = true := by
+    simp only [anglesOk, Bool.and_eq_true, decide_eq_true_eq]
+    exact ⟨⟨⟨⟨⟨al1, al2⟩, be1⟩, be2⟩, ga1⟩, ga2⟩
+  have cgs : -1 < cg ∧ cg < 1 := by
+    rw [hcgdef, ga3]
+    exact angleCos_strict _ _ _ _ (lenOf_pos hT _ n0) (lenOf_pos hT _ n1) (lenOf_sq hT _) (lenOf_sq hT _) x01
+  obtain ⟨r1pos, r2all⟩ := abc_radicands_pos bx hdet a b c ca cb cg pa pb ha2 hb2 hc2 hca hcb hcg cgs
+  obtain ⟨ly, hlydef⟩ : ∃ ly, ly = T.sqrt (abcLySq b cg) := ⟨_, rfl⟩
+  have ply : 0 < ly := hlydef ▸ hT.sqrt_pos _ r1pos
+  have hly2 : ly * ly = abcLySq b cg := hlydef ▸ hT.sqrt_sq _ r1pos.le
+  have r2pos := r2all ly ply hly2
+  obtain ⟨lz, hlzdef⟩ : ∃ lz, lz = T.sqrt (abcLzSq b c ca cb cg ly) := ⟨_, rfl⟩
+  have plz : 0 < lz := hlzdef ▸ hT.sqrt_pos _ r2pos
+  have hlz2 : lz * lz = abcLzSq b c ca cb cg ly := hlzdef ▸ hT.sqrt_sq _ r2pos.le
+  obtain ⟨b', e0, nb, ob, rot⟩ := abc_rebuild_rotation bx hdet a b c ca cb cg ly lz pa ha2 hb2 hc2 hca hcb hcg ply hly2 plz hlz2
+  have raw : defineRaw? T (.abc a b c (angleDeg T bx.vects.r1 bx.vects.r2) (angleDeg T bx.vects.r0 bx.vects.r2)
+      (angleDeg T bx.vects.r0 bx.vects.r1) bx.origin) = some b' := by
+    simp only [defineRaw?, ok, if_true, abcOfDeg, ← hcadef, ← hcbdef, ← hcgdef, ← hlydef, ← hlzdef]
+    exact e0
+  refine ⟨_, b', by simp only [readAs?, ← hadef, ← hbdef, ← hcdef], raw, ?_, nb, ob, rot⟩
+  rw [define_eq_clean_raw, raw]; rfl
+
+/-! ### the hypotheses on the library routines hold for the real functions -/
+
+/-- `(x)**0.5`, `np.cos`, `np.arccos`, `np.pi` as the real functions they approximate. -/
+noncomputable def realTrig : Trig ℝ := ⟨Real.sqrt, Real.cos, Real.arccos, Real.pi⟩
+
+theorem realTrig_spec : realTrig.Spec where
+  sqrt_nonneg := Real.sqrt_nonneg
+  sqrt_sq := fun _ h => Real.mul_self_sqrt h
+  sqrt_nonpos := fun _ h => Real.sqrt_eq_zero_of_nonpos h
+  pi_pos := Real.pi_pos
+  cos_range := fun x => ⟨Real.neg_one_le_cos x, Real.cos_le_one x⟩
+  cos_acos := fun _ h1 h2 => Real.cos_arccos h1 h2
+  acos_cos := fun _ h1 h2 => Real.arccos_cos h1 h2
+  acos_range := fun _ h1 h2 => ⟨Real.arccos_pos.mpr h2, Real.arccos_lt_pi.mpr h1⟩
+
+/-- the pair theorem over the reals with the real square root, cosine, arc cosine and π: nothing assumed. -/
+theorem real_rebuild_any_pair (thr : ℝ) (hthr : 0 ≤ thr) (x : Params ℝ) (Y : Family) (b : Box ℝ)
+    (hx : define? realTrig thr x = some b) (hd : b.vects.det ≠ 0) (hX : x.family ≠ .vectors ∨ b.isLammpsNorm = true) :
+    ∃ q, readAs? realTrig Y b = some q ∧ q.family = Y ∧ define? realTrig thr q = some b :=
+  rebuild_any_pair realTrig_spec thr hthr x Y b hx hd hX
+
+/-- lengths and angles in degrees read back, over the reals. -/
+theorem real_abc_readback_degrees (a b c al be ga : ℝ) (o : V3 ℝ) (bx : Box ℝ) (hb : 0 < b) (hc : 0 < c)
+    (h : defineRaw? realTrig (.abc a b c al be ga o) = some bx) :
+    readAs? realTrig .abc bx = some (.abc a b c al be ga o) :=
+  abc_readback_degrees realTrig_spec a b c al be ga o bx hb hc h
+
+/-- non-vacuity of the hypotheses that do not involve the library routines (any `T`): a tilted cell with non-zero origin given
+    through LAMMPS lengths, through LAMMPS bounds and through three vectors (LAMMPS-oriented; and a turned one). -/
+example : ∃ (x : Params ℚ) (b : Box ℚ), define? ⟨id, id, id, 3⟩ (1/1000000000) x = some b ∧ b.vects.det ≠ 0 ∧
+    x.family = .lengths ∧ b.vects.r1.x ≠ 0 ∧ b.origin ≠ ⟨0, 0, 0⟩ :=
+  ⟨.lengths ⟨2, 3, 4, 1/2, 0, 1⟩ ⟨1, 2, 3⟩, ⟨⟨⟨2, 0, 0⟩, ⟨1/2, 3, 0⟩, ⟨0, 1, 4⟩⟩, ⟨1, 2, 3⟩⟩, by decide +kernel⟩
+example : ∃ (x : Params ℚ) (b : Box ℚ), define? ⟨id, id, id, 3⟩ (1/1000000000) x = some b ∧ b.vects.det ≠ 0 ∧
+    x.family = .hilos ∧ b.vects.r2.y ≠ 0 :=
+  ⟨.hilos ⟨1, 3, 2, 5, 3, 7, 1/2, 0, 1⟩, ⟨⟨⟨2, 0, 0⟩, ⟨1/2, 3, 0⟩, ⟨0, 1, 4⟩⟩, ⟨1, 2, 3⟩⟩, by decide +kernel⟩
+example : ∃ (x : Params ℚ) (b : Box ℚ), define? ⟨id, id, id, 3⟩ (1/1000000000) x = some b ∧ 0 < b.vects.det ∧
+    x.family = .vectors ∧ b.isLammpsNorm = false ∧ cleanVects (1/1000000000) b.vects = b.vects :=
+  ⟨.vectors ⟨0, 2, 0⟩ ⟨0, 3, 4⟩ ⟨12, 5, 0⟩ ⟨1, 2, 3⟩, ⟨⟨⟨0, 2, 0⟩, ⟨0, 3, 4⟩, ⟨12, 5, 0⟩⟩, ⟨1, 2, 3⟩⟩, by decide +kernel⟩
+
+/-! ### arrays of points -/
+
+/-- an array of points is converted row by row: the result has as many rows, row `i` depends on row `i` only, and the two
+    conversions undo one another on whole arrays. -/
+theorem conv_rows (b : Box K) (pts : List (V3 K)) (i : Nat) :
+    (r2cAll b pts).length = pts.length ∧ (c2rAll b pts).length = pts.length ∧
+    (r2cAll b pts)[i]? = pts[i]?.map b.relToCart ∧ (c2rAll b pts)[i]? = pts[i]?.map b.cartToRel := by
+  simp only [r2cAll, c2rAll, List.length_map, List.getElem?_map, and_self]
+
+theorem conv_rows_inverse (b : Box K) (h : b.vects.det ≠ 0) (pts : List (V3 K)) :
+    c2rAll b (r2cAll b pts) = pts ∧ r2cAll b (c2rAll b pts) = pts := by
+  simp only [r2cAll, c2rAll, List.map_map]
+  constructor
+  · conv_rhs => rw [← List.map_id pts]
+    apply List.map_congr_left; intro p _; exact (rel_cart_inverse b h p p).1
+  · conv_rhs => rw [← List.map_id pts]
+    apply List.map_congr_left; intro p _; exact (rel_cart_inverse b h p p).2
+
+/-- `inside` of an array: one flag per point, each decided by that point's relative coordinates alone. -/
+theorem insideAll_iff_rel (b : Box K) (hd : 0 < b.vects.det) (lam : Lams K) (hl : lam.Pos) (pts : List (V3 K)) (i : Nat)
+    (p : V3 K) (hp : pts[i]? = some p) :
+    (insideAll b lam pts true).length = pts.length ∧
+    ((insideAll b lam pts true)[i]? = some true ↔ RelIn (b.cartToRel p)) ∧
+    ((insideAll b lam pts false)[i]? = some true ↔ RelInStrict (b.cartToRel p)) ∧
+    (outsideAll b lam pts true)[i]? = ((insideAll b lam pts false)[i]?).map (!·) := by
+  simp only [insideAll, outsideAll, List.length_map, List.getElem?_map, hp, Option.map_some, Option.some.injEq, true_and,
+    outside_eq_not_inside, Bool.not_true]
+  exact ⟨(inside_iff_rel b hd lam hl p).1, (inside_iff_rel b hd lam hl p).2, trivial⟩
+
+/-- shapes: the conversions accept exactly arrays whose trailing dimension is 3 and return the shape they were given (hence the
+    same number of points); `inside` / `outside` return the leading shape. -/
+theorem convShape_ok_iff (sh : List Nat) :
+    ((∃ r, convShape sh = .ok r) ↔ sh.getLast? = some 3) ∧ (∀ r, convShape sh = .ok r → r = sh ∧ rowsOf r = rowsOf sh) ∧
+    (sh.getLast? = some 3 → insideShape sh = .ok sh.dropLast) ∧ (convShape sh = .errIndex ↔ sh = []) := by
+  refine ⟨?_, ?_, ?_, ?_⟩
+  · cases h : sh.getLast? with
+    | none => simp [convShape, h]
+    | some d => by_cases hd : d = 3 <;> simp [convShape, h, hd]
+  · intro r hr
+    cases h : sh.getLast? with
+    | none => simp [convShape, h] at hr
+    | some d =>
+      by_cases hd : d = 3
+      · simp [convShape, h, hd] at hr; subst hr; exact ⟨rfl, rfl⟩
+      · simp [convShape, h, hd] at hr
+  · intro h; simp [insideShape, h]
+  · cases h : sh.getLast? with
+    | none => simp [convShape, h, List.getLast?_eq_none_iff.mp h]
+    | some d =>
+      have : sh ≠ [] := by intro e; rw [e] at h; simp at h
+      by_cases hd : d = 3 <;> simp [convShape, h, hd, this]
+
+/-! ### refusals of the four parameter sets, and the tie of the degree-level `set_abc` to the call the driver runs -/
+
+/-- `set_abc` in degrees is the `SetOp.abc` call of the object model (the one the correspondence drives) with the cosines and
+    roots the library routines return. -/
+theorem setAbcDeg_eq_setOp (thr : K) (b0 : Box K) (a b c al be ga : K) (o : V3 K) :
+    setAbcDeg? T thr a b c al be ga o =
+      SetOp.apply? thr b0 (.abc al be ga a b c (cosDeg T al) (cosDeg T be) (cosDeg T ga)
+        (T.sqrt (abcLySq b (cosDeg T ga)))
+        (T.sqrt (abcLzSq b c (cosDeg T al) (cosDeg T be) (cosDeg T ga) (T.sqrt (abcLySq b (cosDeg T ga))))) o) := by
+  simp only [setAbcDeg?, SetOp.apply?, setAbc?, ofAbc?, abcOfDeg]
+  split <;> rfl
+
+/-- **which definitions are refused**: three vectors never; LAMMPS lengths iff one of `lx ly lz` is not positive; LAMMPS bounds
+    iff one `hi` is not above its `lo`; lengths and angles iff an angle is outside (0, 180) (ValueError) or `a` or one of the two
+    roots is not positive (AssertionError of `set_lengths`: the angle triple is not realisable). -/
+theorem define_refuses_iff (thr : K) :
+    (∀ a b c o, (define? T thr (.vectors a b c o)).isSome = true) ∧
+    (∀ p o, define? T thr (.lengths p o) = none ↔ ¬(0 < p.lx ∧ 0 < p.ly ∧ 0 < p.lz)) ∧
+    (∀ p : HiLos K, define? T thr (.hilos p) = none ↔ ¬(p.xlo < p.xhi ∧ p.ylo < p.yhi ∧ p.zlo < p.zhi)) ∧
+    (∀ a b c al be ga o, define? T thr (.abc a b c al be ga o) = none ↔
+      (anglesOk al be ga = false ∨
+       ¬(0 < a ∧ 0 < (abcOfDeg T a b c al be ga).ly ∧ 0 < (abcOfDeg T a b c al be ga).lz))) := by
+  refine ⟨fun _ _ _ _ => rfl, ?_, ?_, ?_⟩
+  · intro p o
+    simp only [define?, setLengths?, ofLengthsP?, Box.ofLengths?, Option.map_eq_none_iff]
+    split <;> simp_all
+  · intro p
+    simp only [define?, setHiLos?, ofHiLosP?, Box.ofHiLos?, Box.ofLengths?, Option.map_eq_none_iff, sub_pos]
+    split <;> simp_all
+  · intro a b c al be ga o
+    have hlx : (abcOfDeg T a b c al be ga).lx = a := rfl
+    simp only [define?, setAbcDeg?]
+    cases hok : anglesOk al be ga
+    · simp
+    · simp only [if_true, Option.map_eq_none_iff, ofLengthsP?, Box.ofLengths?, hlx, Bool.true_eq_false, false_or]
+      split <;> simp_all
+
+/-- **which read-backs are refused**: exactly the LAMMPS lengths / bounds of a cell that is not LAMMPS-oriented. -/
+theorem readAs_refuses_iff (Y : Family) (b : Box K) :
+    readAs? T Y b = none ↔ (Y = .lengths ∨ Y = .hilos) ∧ b.isLammpsNorm = false := by
+  cases Y <;> cases h : b.isLammpsNorm <;> simp [readAs?, lengths?, hilos?, h]
+
+/-- with the exact norms the clamp of `vect_angle` changes nothing (it only absorbs rounding). -/
+theorem clampCos_angleCos (u v : V3 K) (n1 n2 : K) (h1 : 0 < n1) (h2 : 0 < n2)
+    (hn1 : n1 * n1 = V3.normSq u) (hn2 : n2 * n2 = V3.normSq v) :
+    clampCos (angleCos u v n1 n2) = angleCos u v n1 n2 := by
+  have h := angleCos_sq_le_one u v n1 n2 h1 h2 hn1 hn2
+  apply clampCos_id <;> nlinarith
+
+example : ∃ (u v : V3 ℚ) (n1 n2 : ℚ), 0 < n1 ∧ 0 < n2 ∧ n1 * n1 = V3.normSq u ∧ n2 * n2 = V3.normSq v ∧
+    angleCos u v n1 n2 ≠ 0 ∧ clampCos (angleCos u v (n1 / 2) n2) ≠ angleCos u v (n1 / 2) n2 :=
+  ⟨⟨3, 4, 0⟩, ⟨4, 3, 0⟩, 5, 5, by decide +kernel⟩
 
 end Atomman.C01
